@@ -469,34 +469,6 @@ Proof.
   rewrite take_n_app. reflexivity.
 Qed.
 
-Lemma run_from_core : forall t p vmax vr, tcfg_ok t vmax vr -> forall ops tok i obs,
-  in_bucket t tok -> run_from t p tok ops = Some obs ->
-  forallb (fun c => snd c) (core (clauses_from t p tok i ops obs)) = true.
-Proof.
-  intros t p vmax vr Ht. induction ops as [|op ops IH]; intros tok i obs Hb Hr; cbn [run_from] in Hr.
-  - injection Hr as <-. reflexivity.
-  - destruct (parse_op op) as [script|] eqn:Po; [|discriminate Hr].
-    destruct (run_from t p (fst (fst (rpc t p tok script 0%float))) ops) as [os|] eqn:R; [|discriminate Hr].
-    injection Hr as <-. cbn [clauses_from]. rewrite Po.
-    assert (Hb' : in_bucket t (fst (fst (rpc t p tok script 0%float)))).
-    { unfold rpc. eapply rpc_go_bucket. eassumption. exact Hb. }
-    destruct (rpc t p tok script 0%float) as [[tk code] ds] eqn:E0. cbn [fst] in Hb', R.
-    rewrite split_obs_of.
-    assert (Hso : same_outcome (tk, code, ds) code (map (fun x : Z * bool * Z => observed (fst (fst x))) ds) (to_bits tk) = true).
-    { unfold same_outcome. rewrite map_length, !Z.eqb_refl. reflexivity. }
-    rewrite Hso. cbn [fst snd].
-    rewrite !core_app, core_delay_clauses. cbn [app]. unfold core at 1. cbn [filter fst snd Z.eqb orb].
-    rewrite Hso, (in_bucket_range _ _ Hb'). cbn [forallb snd andb app].
-    apply (IH tk (i + 1) os Hb' R).
-Qed.
-
-Lemma model_trace_core : forall cfg t p vmax vr ops obs, decode_cfg cfg = Some (t, p) -> tcfg_ok t vmax vr ->
-  run cfg ops = Some obs -> forallb (fun c => snd c) (core (clauses cfg ops obs)) = true.
-Proof.
-  intros cfg t p vmax vr ops obs Hd Ht Hr. unfold clauses. unfold run in Hr. rewrite Hd in *.
-  eapply run_from_core. eassumption. eapply max_in_bucket; eassumption. exact Hr.
-Qed.
-
 (* a boolean form of tcfg_ok, to show the hypothesis satisfiable by computation *)
 Definition tcfg_ok_b (t : tcfg) : bool :=
   PrimFloat.ltb 0%float (tmax t) && PrimFloat.leb (tmax t) 1000%float &&
@@ -540,7 +512,10 @@ Definition attempt_wf (a : attempt) : bool :=
   | _ => true
   end.
 Definition op_wf (op : word) : bool :=
-  match parse_op op with Some script => forallb attempt_wf script | None => false end.
+  match parse_op op with
+  | Some script => forallb attempt_wf script
+  | None => match parse_upd op with Some t' => tcfg_ok_b t' | None => false end   (* a valid new throttling policy *)
+  end.
 (* the policy never reaches the int64 overflow of the computed delay (clause 5) *)
 Definition no_ovf (p : rcfg) : Prop := forall k, 0 <= k < maxAttempts p -> ovf_delay p k = false.
 
@@ -595,27 +570,36 @@ Proof.
       apply andb_true_intro. split; apply Z.leb_le; assumption.
 Qed.
 
-Lemma run_from_all : forall t p vmax vr, tcfg_ok t vmax vr -> policy_ok_b p = true -> no_ovf p ->
-  forall ops tok i, in_bucket t tok -> forallb op_wf ops = true ->
+Lemma run_from_all : forall p, policy_ok_b p = true -> no_ovf p ->
+  forall ops t tok i, (exists vmax vr, tcfg_ok t vmax vr) -> in_bucket t tok -> forallb op_wf ops = true ->
   exists obs, run_from t p tok ops = Some obs /\
               forallb (fun c => snd c) (clauses_from t p tok i ops obs) = true.
 Proof.
-  intros t p vmax vr Ht Hp Hno. induction ops as [|op ops IH]; intros tok i Hb Hw.
+  intros p Hp Hno. induction ops as [|op ops IH]; intros t tok i Ht Hb Hw.
   - exists []. split; reflexivity.
   - cbn [forallb] in Hw. apply andb_prop in Hw. destruct Hw as [Hw1 Hw2]. unfold op_wf in Hw1.
-    cbn [run_from]. destruct (parse_op op) as [script|] eqn:Po; [|discriminate Hw1].
-    assert (Hb' : in_bucket t (fst (fst (rpc t p tok script 0%float)))).
-    { unfold rpc. eapply rpc_go_bucket. eassumption. exact Hb. }
-    assert (Hd := delay_clauses_ok t p Hp Hno script (mkrs tok 0 0) rpc_budget ltac:(cbn; lia) Hw1).
-    fold (rpc t p tok script 0%float) in Hd.
-    destruct (rpc t p tok script 0%float) as [[tk code] ds] eqn:E0. cbn [fst snd] in Hb', Hd.
-    destruct (IH tk (i + 1) Hb' Hw2) as (os & Hr & Hc). cbn [fst snd]. rewrite Hr.
-    exists (obs_of (tk, code, ds) :: os). split. reflexivity.
-    cbn [clauses_from]. rewrite Po, split_obs_of, E0.
-    assert (Hso : same_outcome (tk, code, ds) code (map (fun x : Z * bool * Z => observed (fst (fst x))) ds) (to_bits tk) = true).
-    { unfold same_outcome. rewrite map_length, !Z.eqb_refl. reflexivity. }
-    rewrite Hso. cbn [fst snd].
-    rewrite !forallb_app, Hd. cbn [forallb snd andb]. rewrite Hso, (in_bucket_range _ _ Hb'), Hc. reflexivity.
+    cbn [run_from]. destruct (parse_op op) as [script|] eqn:Po.
+    + destruct Ht as (vmax & vr & Ht0).
+      assert (Hb' : in_bucket t (fst (fst (rpc t p tok script 0%float)))).
+      { unfold rpc. eapply rpc_go_bucket. eassumption. exact Hb. }
+      assert (Hd := delay_clauses_ok t p Hp Hno script (mkrs tok 0 0) rpc_budget ltac:(cbn; lia) Hw1).
+      fold (rpc t p tok script 0%float) in Hd.
+      destruct (rpc t p tok script 0%float) as [[tk code] ds] eqn:E0. cbn [fst snd] in Hb', Hd.
+      destruct (IH t tk (i + 1) (ex_intro _ vmax (ex_intro _ vr Ht0)) Hb' Hw2) as (os & Hr & Hc). cbn [fst snd]. rewrite Hr.
+      exists (obs_of (tk, code, ds) :: os). split. reflexivity.
+      cbn [clauses_from]. rewrite Po, split_obs_of, E0.
+      assert (Hso : same_outcome (tk, code, ds) code (map (fun x : Z * bool * Z => observed (fst (fst x))) ds) (to_bits tk) = true).
+      { unfold same_outcome. rewrite map_length, !Z.eqb_refl. reflexivity. }
+      rewrite Hso. cbn [fst snd].
+      rewrite !forallb_app, Hd. cbn [forallb snd andb]. rewrite Hso, (in_bucket_range _ _ Hb'), Hc. reflexivity.
+    + (* service-config update: a fresh bucket, full, for the new policy *)
+      destruct (parse_upd op) as [t'|] eqn:Pu; [|discriminate Hw1].
+      destruct (tcfg_ok_b_sound t' Hw1) as (vmax' & vr' & Ht').
+      assert (Hb' : in_bucket t' (tmax t')) by (eapply max_in_bucket; eassumption).
+      destruct (IH t' (tmax t') (i + 1) (ex_intro _ vmax' (ex_intro _ vr' Ht')) Hb' Hw2) as (os & Hr & Hc).
+      rewrite Hr. exists ([to_bits (tmax t')] :: os). split. reflexivity.
+      cbn [clauses_from]. rewrite Po, Pu, Z.eqb_refl. cbn [forallb snd].
+      rewrite (in_bucket_range _ _ Hb'), Hc. reflexivity.
 Qed.
 
 Lemma model_trace_holds : forall cfg t p vmax vr ops, decode_cfg cfg = Some (t, p) -> tcfg_ok t vmax vr ->
@@ -623,5 +607,12 @@ Lemma model_trace_holds : forall cfg t p vmax vr ops, decode_cfg cfg = Some (t, 
   exists obs, run cfg ops = Some obs /\ holds_b cfg ops obs = true.
 Proof.
   intros cfg t p vmax vr ops Hd Ht Hp Hno Hw. unfold run, holds_b, clauses. rewrite Hd.
-  eapply run_from_all; try eassumption. eapply max_in_bucket; eassumption.
+  eapply run_from_all; try eassumption. exists vmax, vr. exact Ht. eapply max_in_bucket; eassumption.
 Qed.
+
+(* a service-config update gives a fresh, full bucket for the new policy: inside the new
+   [0, maxTokens] whatever the old bucket held *)
+Lemma update_fresh_bucket : forall p t tok t' op rest, parse_op op = None -> parse_upd op = Some t' ->
+  run_from t p tok (op :: rest) =
+  match run_from t' p (tmax t') rest with Some os => Some ([to_bits (tmax t')] :: os) | None => None end.
+Proof. intros p t tok t' op rest Po Pu. cbn [run_from]. rewrite Po, Pu. reflexivity. Qed.
